@@ -422,6 +422,10 @@ def expected(op, s, a, lsb0):
             return expected("setslice", s, [a[0], a[1], a[2], format(v % (1 << k), "0%db" % k)], lsb0)
         if not lsb0:
             return "ok " + canon(ref_msb0(op, s, a))
+        if op in ("rol", "ror"):
+            # a rotation keeps its direction relative to the most significant end; only the range is mirrored:
+            # rotating the stored bits to the left is rotating the reversed bits to the right
+            op = "ror" if op == "rol" else "rol"
         a2 = list(a)
         for i in BIT_ARGS.get(op, []):
             a2[i] = wire(R(unwire(a[i])))
@@ -863,7 +867,8 @@ def gen_slices(rng, tier):
                 if keep < 1.0 and k not in (rl, 1) and rng.random() < 0.6:
                     continue
                 yield L("setslice", _mcls(rng), s, a, b, c, wire(_pat(k, 3)))
-            if rng.random() < (0.25 if n <= full else 0.5):
+            if rng.random() < (0.25 if n <= full else 0.5) and (c is None or c >= -1):
+                # (a negative extended step goes through range(*key.indices()) -> slice(): msb0's own business)
                 yield L("setsliceint", _mcls(rng), s, a, b, c, rng.choice([0, 1, 1, -1, 2, 5, -3, (1 << max(rl, 1)) - 1]))
         for i in range(-(n + 3), n + 4):
             for s in conts:
